@@ -4,7 +4,7 @@ import Verif.Model.AcmeAuth
 
   `req`  — one request against the world as the harness observed it just before sending:
     req v=2 m=POST p=x<hex chi pattern>
-        pid= pname= pknown= url= ct=0..3 cpath= parsed= fresh= tgt= tgt2= plok= deact= only= ckey= csame= attest= attp=        (request)
+        pid= pname= pknown= url= ct=0..3 cpath= parsed= fresh= tgt= tgt2= plok= deact= only= ckey= csame= attest= attp= pre= pacme=        (request)
         ns= ue= ac=rsa|eced|other alg= es= short= jwk=-|isRsa.bytes.valid.thumb.alg
         kid= kb= kpre= nonce= jurl=!|n ver=-|thumb:pRSB,… pe=                                   (parsed JWS)
         nl=0|1  accs=-|id:key:keyAlg:status:loc:provId:provName,…                               (world)
@@ -117,7 +117,8 @@ def evalReq (kv : List (String × String)) : Option String := do
     url := (← nat kv "url"), ct := (← nat kv "ct"), certPath := (← flag kv "cpath"), parsed := (← flag kv "parsed"), jws,
     fresh := (← nat kv "fresh"), target := (← nat kv "tgt"), target2 := (← nat kv "tgt2"),
     payloadOk := (← flag kv "plok"), wantDeactivate := (← flag kv "deact"), onlyExisting := (← flag kv "only"),
-    certKey := (← nat kv "ckey"), certSame := (← flag kv "csame"), attest := (← flag kv "attest"), attPayload := (← nat kv "attp") }
+    certKey := (← nat kv "ckey"), certSame := (← flag kv "csame"), attest := (← flag kv "attest"), attPayload := (← nat kv "attp"),
+    prereq := (← nat kv "pre"), provAcme := (← flag kv "pacme") }
   let nl ← flag kv "nl"
   let w : World := {
     nonces := if nl then [jws.nonce] else [],
